@@ -15,6 +15,7 @@ pub mod c11;
 pub mod c12;
 pub mod c13;
 pub mod c14;
+pub mod c15;
 pub mod c16;
 pub mod c18;
 
@@ -52,6 +53,7 @@ table! {
     "C12" => c12::run, c12::replay;
     "C13" => c13::run, c13::replay;
     "C14" => c14::run, c14::replay;
+    "C15" => c15::run, c15::replay;
     "C16" => c16::run, c01::replay;
     "C18" => c18::run, c18::replay;
 }
